@@ -11,7 +11,7 @@ from props import _generic
 MODULE = "NgoVerif.Props.C13"
 LEVEL = ('Lean: telescoping - base weight plus one difference per chain step equals the chosen value, for any sorted domain; sum over per-step tuple sets = sum of sums iff disjoint (the next atom in the tuple). The at-most-one analysis and eligibility tests (Model/SumAgg.lean) and the whole rewriting - chain/next elements, requested domain rules, objectives, statement order, the in-place edit of shared element nodes - (Model/SumRewrite.lean) are executable models tied to sum_aggregates.py by corr_sumagg.py and corr_sumrewrite.py; their side conditions are: validated with clingo incl. per-group differing domains and costs.')
 RULE = ('oracle cases = programs harvested from /repo/tests (sum_aggregates first) mutations of them and programs of a targeted type-directed generator (harness/tgen.py) under sum_chains only, 5 instances each (empty, small integer/symbolic domains, dense tiny domains, duplicates) over the input predicates; compared: answer sets on voc(P) one-to-one + costs; non-trivial = the pass changed the program and at least one instance was compared; distinct by program+flags')
-EXTRA = ['{ shift(D,L) : pshift(D,L) } 1 :- day(D). #minimize { L@L,D : shift(D,L) }.', '{ shift(D,L) : pshift(D,L) } 1 :- day(D). :~ overtime(D,L). [L@1,D] :~ shift(D,L). [L@1,D] {overtime(D,L)} :- pshift(D,L).', '{ shift(D,L) : pshift(D,L) } 1 :- day(D). long_hours(S) :- S = #sum{L,D : shift(D,L), L > 8}.', '{ shift(D,L) : pshift(D,L) } 1 :- day(D). a(X) :- X = #sum{L,D : shift(D,L)}.']
+EXTRA = ['{ shift(D,L) : pshift(D,L) } 1 :- day(D). a(__PREV) :- __PREV = #sum{L,D : shift(D,L)}.', '{ shift(D,L) : pshift(D,L) } 1 :- day(D). :~ shift(__PREV,L), q(__PREV). [L@1,__PREV]', '{ shift(D,L) : pshift(D,L) } 1 :- day(D). #minimize { L@L,D : shift(D,L) }.', '{ shift(D,L) : pshift(D,L) } 1 :- day(D). :~ overtime(D,L). [L@1,D] :~ shift(D,L). [L@1,D] {overtime(D,L)} :- pshift(D,L).', '{ shift(D,L) : pshift(D,L) } 1 :- day(D). long_hours(S) :- S = #sum{L,D : shift(D,L), L > 8}.', '{ shift(D,L) : pshift(D,L) } 1 :- day(D). a(X) :- X = #sum{L,D : shift(D,L)}.']
 
 
 def corr(rng, quick):
